@@ -48,14 +48,20 @@ VARIABLES argv,      \* the argument vector (chosen in Init)
           command, args, extras, image, second, dest, out
 vars == <<argv, phase, line, i, npos, command, args, extras, image, second, dest, out>>
 
-Vectors == UNION {[1..n -> ATok \cup OTok] : n \in 0..MaxLen}
 None == "<none>"
 Outcome(k) == [kind |-> k, cmd |-> None, image |-> None, arg |-> None]
 
-Init == /\ argv \in Vectors
-        /\ phase = "main" /\ line = argv /\ i = 1 /\ npos = 0
+Init == /\ argv = <<>>
+        /\ phase = "build" /\ line = <<>> /\ i = 1 /\ npos = 0
         /\ command = None /\ args = <<>> /\ extras = <<>> /\ image = None /\ second = None /\ dest = None
         /\ out = Outcome("pending")
+
+\* the argument vector is any sequence of tokens up to MaxLen
+Type == /\ phase = "build" /\ Len(argv) < MaxLen
+        /\ \E t \in ATok \cup OTok : argv' = Append(argv, t)
+        /\ UNCHANGED <<phase, line, i, npos, command, args, extras, image, second, dest, out>>
+Enter == /\ phase = "build" /\ phase' = "main" /\ line' = argv
+         /\ UNCHANGED <<argv, i, npos, command, args, extras, image, second, dest, out>>
 
 Finish(o) == /\ out' = o /\ phase' = "done"
              /\ UNCHANGED <<argv, line, i, npos, command, args, extras, image, second, dest>>
@@ -122,7 +128,7 @@ Run == /\ phase = "sub" /\ i > Len(line)
                        arg |-> IF command = "ls" THEN (IF second = None THEN "" ELSE second)
                                ELSE (IF dest = None THEN "." ELSE dest)])
 
-Next == MainWord \/ MainOption \/ Dispatch \/ SubWord \/ SubOption \/ Run
+Next == Type \/ Enter \/ MainWord \/ MainOption \/ Dispatch \/ SubWord \/ SubOption \/ Run
 Spec == Init /\ [][Next]_vars /\ WF_vars(Next)
 
 -----------------------------------------------------------------------------
@@ -158,12 +164,10 @@ Meaning(v) ==
   LET cmd == v[FirstWord(v)]
       g == Groups(Behind(v))
       words == SelectG(g, IsWord)
-      \* the -d options in the order the command's parser sees them: those before the command come after the first run of words
+      \* the command's parser sees the options written before the command first, then those behind it; the last -d wins
       dests == SelectG(g, IsDest)
       pre == SelectSeq(Before(v), LAMBDA t : t \in OptD1)
-      lastdest == IF dests # <<>> /\ (pre = <<>> \/ ~IsWord(g[1]) \/ \E k \in 2..Len(g) : IsDest(g[k]))
-                  THEN DestOf(dests[Len(dests)])
-                  ELSE IF pre # <<>> THEN "out" ELSE IF dests # <<>> THEN DestOf(dests[Len(dests)]) ELSE "." IN
+      lastdest == IF dests # <<>> THEN DestOf(dests[Len(dests)]) ELSE IF pre # <<>> THEN "out" ELSE "." IN
   [kind |-> "run", cmd |-> cmd, image |-> words[1][1],
    arg |-> IF cmd = "ls" THEN (IF Len(words) = 2 THEN words[2][1] ELSE "") ELSE lastdest]
 
@@ -176,7 +180,7 @@ RunsOnlyWhatWasAsked == (Done /\ out.kind = "run") => (Valid(argv) /\ out = Mean
 MissingImageReported == (Done /\ Valid(argv) /\ FileCheck(Meaning(argv).image) # "ok") => out.kind = FileCheck(Meaning(argv).image)
 HelpOnlyOnRequest == (Done /\ out.kind = "help") => \E k \in 1..Len(argv) : argv[k] \in Help
 Terminates == <>Done
-TypeOK == /\ phase \in {"main", "sub", "done"} /\ npos \in 0..2 /\ i \in 1..(Len(line) + 1)
+TypeOK == /\ phase \in {"build", "main", "sub", "done"} /\ npos \in 0..2 /\ i \in 1..(Len(line) + 1)
           /\ out.kind \in {"pending", "run", "usage", "help", "nofile", "notfile"}
 
 Emit == (EmitCases /\ Done) => PrintT(<<"CASE", ToJson([argv |-> argv, out |-> out, valid |-> Valid(argv)])>>)
